@@ -1,6 +1,6 @@
 """Shared machinery of the checks: building the harness from /repo's working
 tree, running scenario shards, TLC trace validation, evidence and verdicts."""
-import json, os, random, shutil, subprocess, sys, time, hashlib, tempfile
+import json, os, random, re, shutil, subprocess, sys, time, hashlib, tempfile
 from concurrent.futures import ThreadPoolExecutor
 
 VERIF = os.path.dirname(os.path.dirname(os.path.abspath(__file__)))
@@ -63,14 +63,38 @@ def run_shards(binary, scenarios, workdir, nproc=None, timeout=900, args=()):
 
     def one(i):
         sdir = os.path.join(workdir, "shard%d" % i)
-        os.makedirs(sdir, exist_ok=True)
-        inp = "\n".join(json.dumps(s) for s in shards[i]) + "\n"
-        p = subprocess.run([binary, "-scratch", sdir] + list(args), input=inp, stdout=subprocess.PIPE,
-                           stderr=subprocess.PIPE, text=True, timeout=timeout)
-        shutil.rmtree(sdir, ignore_errors=True)
-        if p.returncode != 0:
-            raise InfraError("%s exited %d: %s" % (binary, p.returncode, p.stderr[-2000:]))
-        return p.stdout
+        todo = list(shards[i])
+        out = ""
+        while todo:
+            os.makedirs(sdir, exist_ok=True)
+            inp = "\n".join(json.dumps(s) for s in todo) + "\n"
+            p = subprocess.run([binary, "-scratch", sdir] + list(args), input=inp, stdout=subprocess.PIPE,
+                               stderr=subprocess.PIPE, text=True, timeout=timeout)
+            shutil.rmtree(sdir, ignore_errors=True)
+            if p.returncode == 0:
+                out += p.stdout
+                break
+            # the process died: a panic inside the database (a goroutine of
+            # zenodb) takes the harness with it.  Keep what finished, attribute
+            # the crash to the scenario that was running, carry on with the rest.
+            # traces are flushed when a scenario ends: everything on stdout is
+            # complete, the first scenario without a trace is the one that was running
+            done = set(json.loads(l)["scn"] for l in p.stdout.splitlines() if l.startswith('{"a":"Reset"'))
+            m = re.search(r"^panic: (.*)$", p.stderr, re.M)
+            rest = [s["scn"] for s in todo if s["scn"] not in done]
+            if not m or not rest:
+                raise InfraError("%s exited %d: %s" % (binary, p.returncode, p.stderr[-2000:]))
+            culprit = rest[0]
+            frames = re.findall(r"^\s+(/\S+\.go):\d+", p.stderr, re.M)
+            first = next((f for f in frames if "/runtime/" not in f and "/src/" not in f), "")
+            in_db = first.startswith(REPO + "/") or "/getlantern/" in first
+            out += p.stdout
+            out += json.dumps({"a": "Reset", "scn": culprit}) + "\n"
+            out += json.dumps({"a": "ProcessCrash", "scn": culprit, "panic": m.group(1), "in_database_code": in_db,
+                               "top_frame": first, "stderr_tail": p.stderr[-1500:]}) + "\n"
+            idx = [s["scn"] for s in todo].index(culprit)
+            todo = todo[idx + 1:]
+        return out
 
     with ThreadPoolExecutor(nproc) as ex:
         outs = list(ex.map(one, range(nproc)))
